@@ -290,6 +290,49 @@ def build_ops(name):
             return fails, True
         return {'A': reg('A'), 'B': reg('B')}, check, None
 
+    if name == 'register|unregister_same_type':
+        X = namedtuple('X17', 'a b')      # registering a namedtuple class emits a warning => a scheduling point
+        outcome = {}
+
+        def reg():
+            optree.register_pytree_node(X, lambda o: (tuple(o), 'x17'), lambda m, c: X(*c), namespace='c17x')
+            return 'registered'
+
+        def unreg():
+            try:
+                optree.unregister_pytree_node(X, namespace='c17x')
+                return 'unregistered'
+            except ValueError:
+                return 'not-registered'
+
+        def check(results, solo):
+            fails = []
+            a, b = results['A'], results['B']
+            if a != ('ok', 'registered'):
+                fails.append(('register_unregister/register_failed', f'{a}'))
+            if b[0] != 'ok':
+                fails.append(('register_unregister/unregister_wrong_exception', f'{b}'))
+            # final state must be the one of a sequential order, and engine and Python mirror must agree
+            is_custom = optree.tree_structure(X(1, 2), namespace='c17x').kind == optree.PyTreeKind.CUSTOM
+            h = optree.register_pytree_node.get(X, namespace='c17x')
+            mirror_custom = h is not None and h.kind == optree.PyTreeKind.CUSTOM
+            if is_custom != mirror_custom:
+                fails.append(('register_unregister/mirror_torn', f'engine custom={is_custom} python registry custom={mirror_custom}; results {results}'))
+            want_custom = (b == ('ok', 'not-registered'))       # unregister ran first => registration survives
+            if b[0] == 'ok' and a == ('ok', 'registered') and is_custom != want_custom:
+                fails.append(('register_unregister/not_sequential', f'results {results}, finally custom={is_custom}'))
+            for ns_ in ('c17x',):
+                try:
+                    optree.unregister_pytree_node(X, namespace=ns_)
+                except ValueError:
+                    pass
+                try:
+                    optree._C.unregister_node(X, ns_)
+                except Exception:  # noqa: BLE001
+                    pass
+            return fails, True
+        return {'A': reg, 'B': unreg}, check, None
+
     if name == 'registry_change_of_flattened_type':
         class RC:
             def __init__(self, v):
@@ -389,7 +432,8 @@ def _solo(f):
 TUPLES = ['flatten|map', 'flatten|reg_nt', 'map|reg_nt', 'flatten2|reg_nt', 'inspect|reg_nt', 'unflatten|reg_meta',
           'flatten2|reg_meta', 'reg_nt|reg_nt', 'reg_nt|reg_meta', 'eq|hash', 'eq|eq', 'hash|hash', 'repr|repr', 'repr|pickle',
           'hash|repr', 'iter|with_path', 'unflatten|flatten', 'broadcast|inspect', 'flatten|map|reg_plain', 'iter|unflatten|reg_nt',
-          'eq|hash|repr', 'shared_iter', 'same_registration', 'registry_change_of_flattened_type']
+          'eq|hash|repr', 'shared_iter', 'same_registration', 'registry_change_of_flattened_type',
+          'register|unregister_same_type']
 
 
 def preemptive(req):
@@ -555,7 +599,7 @@ class Worker:
 class C17(runner.Prop):
     ID = 'C17'
     LEVEL = 'model_checking'
-    RULE = ('24 operation tuples (2-3 operations from flatten / flatten_with_path / map / unflatten / iter / ==,<= / hash / repr / '
+    RULE = ('25 operation tuples (2-3 operations from flatten / flatten_with_path / map / unflatten / iter / ==,<= / hash / repr / '
             'pickle / inspect / broadcast x register+unregister of an unrelated plain / namedtuple / metaclass-hooked type, shared '
             'iterator, concurrent identical registrations, registry change of the type being flattened); for each tuple the '
             'interleavings at callback granularity are enumerated by stateless DFS over the scheduler choices (capped per tuple: '
